@@ -50,6 +50,16 @@ CHECKS = {
             "explicit invariance test; Kruskal symmetrize over ranks, weight signs and factor families.",
             "Trusted: mc/refmodel.py symmetrize/is_symmetric (explicit permutation average); integer data (exact averages).",
             TECH_PRODUCT, "DESIGN.md §6 C15"),
+    "C02": ("ttv, ttm (plain/transposed), mttkrp/mttkrps (factor list and weighted Kruskal operand), ttt (every equal-size mode "
+            "pairing, outer and inner), ttsv, innerprod (every documented ordered holder pair), norm, contract, collapse "
+            "(sum/max/min), scale, mask and reconstruct are run on every holder (dense, sparse in 5 fill classes and 2 stored "
+            "orders, Kruskal, Tucker dense/sparse core, mixed sums) of every shape in scope, under EVERY mode designation "
+            "(each non-empty ordered selection as dims with |dims|- and N-long multiplicand lists, each subset via "
+            "exclude_dims, int/array/list forms), and compared exactly with the explicit index sum; the evidence lists which "
+            "sides of the data-dependent switches (sparse kept/densified, <=50%/>50% fill, empty, scalar) were reached.",
+            "Trusted: mc/refmodel.py sums (einsum/tensordot on expanded arrays); integer data; non-sum sparse reducers are "
+            "compared with 'reduce the stored entries of each fibre' (DESIGN §6 C02 scoping); mttkrp on 1-way tensors is documented as invalid.",
+            TECH_PRODUCT, "DESIGN.md §6 C02"),
 }
 PENDING = {f"C{i:02d}": "check not built yet in this phase (planned, see DESIGN.md §6)" for i in range(1, 21) if f"C{i:02d}" not in CHECKS}
 NOT_APPLICABLE = {}
